@@ -173,9 +173,15 @@ impl<'a> Ctx<'a> {
 			let (p, l) = *s;
 			let inside = p >= base && p + l <= end;
 			if !inside {
-				// must be one of the fixed constants (by content) - and no allocation happened
+				// must be one of the fixed constants (by content) - and no allocation happened.
+				// The property allows "a fixed constant such as the root path" without saying
+				// which accessor may return which, so every path-valued accessor may return any
+				// of the library's three path constants, and an empty slice (which carries no
+				// byte of anything) is accepted from every accessor.
 				let content: &[u8] = unsafe { std::slice::from_raw_parts(p as *const u8, l) };
-				if !consts.contains(&content) {
+				let path_valued = !consts.is_empty();
+				let ok = content.is_empty() || (path_valued && PATH_CONSTANTS.contains(&content));
+				if !ok {
 					return Err(fail("slice_outside_input", self.ty, name, format!("{}::{} returned a {}-byte slice that is neither inside the input nor a fixed constant", self.ty, name, l), self.text));
 				}
 				self.stats.hit("constant_slices_returned");
@@ -191,6 +197,9 @@ impl<'a> Ctx<'a> {
 		Ok(())
 	}
 }
+
+/// The path constants of the library: `Path::EMPTY`, `Path::EMPTY_ABSOLUTE`, and the `/./` of `parent()`.
+const PATH_CONSTANTS: &[&[u8]] = &[b"", b"/", b"/./"];
 
 fn none8() -> [Option<Sl>; 8] {
 	[None; 8]
